@@ -35,6 +35,12 @@ M_PRIM = {'name': 'PrimModel', 'module': 'PrimModel.tla', 'cfg': {'quick': 'Prim
           'must_cover': ['PrimModel.NextCase']}
 
 
+M_DIMS = {'name': 'ChannelDims', 'module': 'ChannelDims.tla', 'cfg': {'quick': 'MC_ChannelDims.cfg', 'thorough': 'MC_ChannelDims.cfg'},
+          'must_cover': ['ChannelDims.FromData', 'ChannelDims.WriteItem']}
+M_CACHE = {'name': 'CacheModel', 'module': 'CacheModel.tla', 'cfg': {'quick': 'MC_CacheModel.cfg', 'thorough': 'MC_CacheModel_thorough.cfg'},
+           'must_cover': ['CacheModel.Rename', 'CacheModel.SetOrigin', 'CacheModel.Write']}
+
+
 def seg_drift(programs, traces, jobs):
     """Run the Segmenter model on the inputs of the recorded low-level writes; compare outcome, bytes, flushes."""
     cases = []
@@ -142,7 +148,7 @@ REGISTRY = {
     'C07': {'models': [M_DLIS], 'extra_gen': [dlismodel_programs], 'drift': [dlismodel_drift], 'nontrivial': lambda c, p: c['objs'] > 0 and c['eflrs'] > 0,
             'rule': 'code: object graphs with repeated names, several origins, explicit origin references, origin added late; TLC resolves every reference of the decoded file and compares with the object the history passed',
             'assumptions': COMMON_ASSUME},
-    'C08': {'models': [], 'nontrivial': lambda c, p: c['frames'] > 0 and c['fdata'] > 0,
+    'C08': {'models': [M_DIMS, M_DATA], 'nontrivial': lambda c, p: c['frames'] > 0 and c['fdata'] > 0,
             'rule': 'code: data scenarios + user dimension/element-limit combinations + shared/absent channels; TLC checks decoded descriptors against record lengths',
             'assumptions': COMMON_ASSUME},
     'C09': {'models': [M_DLIS], 'extra_gen': [dlismodel_programs], 'drift': [dlismodel_drift], 'nontrivial': lambda c, p: c['eflrs'] > 0,
@@ -160,10 +166,10 @@ REGISTRY = {
     'C19': {'models': [M_DATA], 'nontrivial': lambda c, p: c['files'] + c['raised'] > 0,
             'rule': 'code: all source kinds, layouts incl. views into larger buffers and read-only arrays, successful and failing writes; TLC compares the caller buffers (whole base buffer) before and after',
             'assumptions': COMMON_ASSUME},
-    'C12': {'models': [], 'nontrivial': lambda c, p: c['files'] + c['raised'] > 0,
+    'C12': {'models': [M_ATTR, M_DIMS], 'nontrivial': lambda c, p: c['files'] + c['raised'] > 0,
             'rule': 'code: every invalid class of the property (unequal rows, unsupported dtype, >2 dimensions, missing dataset, over-long names/labels/units/set names, non-ASCII text, integers outside their code, no origin/channels/frames) and degenerate inputs, combined with valid content; TLC requires: raised, or (for degenerate ones) a file every C01-C09/C16 clause accepts; non-trivial = a write was attempted',
             'assumptions': COMMON_ASSUME},
-    'C14': {'models': [], 'nontrivial': lambda c, p: c['cmp'] > 0,
+    'C14': {'models': [M_CACHE], 'nontrivial': lambda c, p: c['cmp'] > 0,
             'rule': 'code: histories (1..3 other files built and written first, names reused with other origin/copy/type/value, HC entered and left, the same DLISFile written twice, mutation after a write) vs. a fresh process building the final specification alone; TLC compares the bytes of writes whose Canon and expected rows are equal; non-trivial = at least one comparison',
             'assumptions': COMMON_ASSUME},
     'C17': {'models': [M_DLIS], 'extra_gen': [dlismodel_programs], 'drift': [dlismodel_drift], 'nontrivial': lambda c, p: c['hcev'] > 0 or c['files'] > 0,
